@@ -283,7 +283,7 @@ theorem C03_status_with_drops (x y : P2P × TLState) (h0 : XInv x) (hrun : XStar
           ((ins.getD p default).2 = .predicted ∧ (gh.specs p).vals.length ≤ c ∧
             (ins.getD p default).1 = predValue y.1.pred (gh.specs p).vals)) := by
   obtain ⟨gh, st0, h⟩ := XInv_run x y h0 hrun
-  obtain ⟨s1, reqs1, gh1, gh2, gh', hset, _, _, _, _, _, _, _, _, hcase⟩ :=
+  obtain ⟨s1, reqs1, gh1, gh2, gh', hset, _, _, _, _, _, _, _, _, _, hcase⟩ :=
     advanceRollbackFrame_specD y.1 s' gh y.2 [] reqs' now st0 h hadv
   rcases hcase with ⟨_, hcur⟩ | ⟨c, ins, hc, hr, hil, hok, _, _, hcur⟩
   · exact absurd hcur hnew
